@@ -334,6 +334,22 @@ static void ts_roundtrip(uint64_t idx, vp::Local& L) {
         vp::fail("ts-roundtrip", "Timestamp(" + s + ") threw: " + e.what());
     }
     VP_CHECK(back == t, "ts-roundtrip", "Timestamp(to_iso(" << t << ")) = " << back << " via " << s);
+    // the value itself: conversions, validity, order (against a neighbour, a far value and the two special values)
+    VP_CHECK(static_cast<uint32_t>(ts) == t && static_cast<uint64_t>(ts) == t && ts.seconds_since_epoch() == static_cast<std::time_t>(t), "ts-value", "conversions of Timestamp(" << t << ") give " << static_cast<uint32_t>(ts) << "/" << static_cast<uint64_t>(ts) << "/" << ts.seconds_since_epoch());
+    VP_CHECK(ts.valid() == (t != 0) && static_cast<bool>(ts) == (t != 0), "ts-value", "valid() of Timestamp(" << t << ") = " << ts.valid());
+    VP_CHECK(osmium::Timestamp{static_cast<uint64_t>(t)} == ts && osmium::Timestamp{static_cast<int64_t>(t)} == ts && osmium::Timestamp{static_cast<std::time_t>(t)} == ts, "ts-value", "Timestamp(" << t << ") from 64-bit integers differs");
+    for (uint32_t u : {t + 1, t - 1, t ^ 0x80000000U, 0U, 1U, 4294967295U}) {
+        const osmium::Timestamp o{u};
+        VP_CHECK((ts == o) == (t == u) && (ts != o) == (t != u) && (ts < o) == (t < u) && (ts > o) == (t > u) && (ts <= o) == (t <= u) && (ts >= o) == (t >= u), "ts-order", "comparison of Timestamp(" << t << ") with Timestamp(" << u << "): == " << (ts == o) << " < " << (ts < o) << " > " << (ts > o) << " <= " << (ts <= o) << " >= " << (ts >= o));
+    }
+    if (t != 0) VP_CHECK(!(ts < osmium::start_of_time()) && !(osmium::end_of_time() < ts), "ts-order", "Timestamp(" << t << ") is outside start_of_time()..end_of_time()");
+    {
+        osmium::Timestamp a = ts;
+        a += 5;
+        VP_CHECK(static_cast<uint32_t>(a) == t + 5, "ts-value", "Timestamp(" << t << ") += 5 gives " << static_cast<uint32_t>(a));
+        a -= 7;
+        VP_CHECK(static_cast<uint32_t>(a) == t - 2, "ts-value", "Timestamp(" << t << ") += 5, -= 7 gives " << static_cast<uint32_t>(a));
+    }
     ++L.nontrivial;
 }
 
